@@ -121,7 +121,7 @@ func VerifC14Serve(k1, k2, k3, peers int) {
 		peer, wantIP := verifPeer(pk % 10)
 		pk /= 10
 		switch kind {
-		case 0, 7, 8:
+		case 0, 3, 7, 8:
 			var e verifExpect
 			e.valid = true
 			copy(e.xid[:], verifBytes("xid", 4))
@@ -135,7 +135,12 @@ func VerifC14Serve(k1, k2, k3, peers int) {
 			}
 			e.peerIP, e.peerPort = wantIP, peer.Port
 			p := &dhcpv4.DHCPv4{OpCode: dhcpv4.OpcodeType(e.op), HWType: 1, TransactionID: e.xid, ClientHWAddr: net.HardwareAddr{2, 0, 0, 0, 0, 1}, Options: dhcpv4.Options{e.code: e.val}}
-			conn.script = append(conn.script, verifRead{data: p.ToBytes(), peer: peer, closeFirst: kind == 7})
+			data := p.ToBytes()
+			if kind == 3 {
+				// a datagram that fills the server's read buffer exactly (pad bytes after End)
+				data = append(data, make([]byte, 4096-len(data))...)
+			}
+			conn.script = append(conn.script, verifRead{data: data, peer: peer, closeFirst: kind == 7})
 			exp = append(exp, e)
 			if kind == 7 && closedAt < 0 {
 				closedAt = i + 1 // Close landed during this read: nothing after it is read
@@ -178,7 +183,7 @@ func VerifC14Serve(k1, k2, k3, peers int) {
 		if closedAt >= 0 && i >= closedAt {
 			break
 		}
-		if kind == 0 || kind == 7 || kind == 8 {
+		if kind == 0 || kind == 3 || kind == 7 || kind == 8 {
 			want = append(want, exp[idx])
 			idx++
 		}
